@@ -245,6 +245,7 @@ LOGGER = Stage(
     parts={"quick": [("", 1)], "thorough": [("", 4)]},
     trace=("Trace_Logger.tla", "Trace_Logger.cfg"),
     nontrivial=lambda e: e.get("ev") in ("Log", "Build"),
+    behaviours={"quick": [("Gen_Logger.tla", "Gen_Logger.cfg", 60, 14)], "thorough": [("Gen_Logger.tla", "Gen_Logger.cfg", 2000, 14)]},
 )
 
 # packet.PDUStringer, the object behind every String() (outside the listed properties: tags X.stringer.*, drift only)
@@ -256,6 +257,7 @@ STRINGER = Stage(
     parts={"quick": [("", 1)], "thorough": [("", 4)]},
     trace=("Trace_Stringer.tla", "Trace_Stringer.cfg"),
     nontrivial=lambda e: e.get("ev") in ("W", "Str"),
+    behaviours={"quick": [("Gen_Stringer.tla", "Gen_Stringer.cfg", 60, 14)], "thorough": [("Gen_Stringer.tla", "Gen_Stringer.cfg", 2000, 14)]},
 )
 
 CHECKS = {
